@@ -20,6 +20,7 @@ import (
 	"strconv"
 	"strings"
 	"sync"
+	"syscall"
 	"testing"
 	"time"
 
@@ -56,7 +57,8 @@ type C06Srv struct {
 	M *miniredis.Miniredis
 
 	mu       sync.Mutex
-	mode     string // "" | down | get | set | del
+	prefixes []string // only commands on keys with one of these prefixes belong to the running case
+	mode     string   // "" | down | get | set | del
 	filt     string // "" or first byte of the keys the fault applies to
 	log      []C06Cmd
 	injected int
@@ -134,6 +136,12 @@ func (s *C06Srv) hook(c *server.Peer, cmd string, args ...string) bool {
 		return false
 	}
 	s.mu.Lock()
+	if !s.ours(e.Keys) {
+		// a straggler of an earlier case (a command whose client gave up after
+		// a real-time socket time-out on an overloaded machine): not ours
+		s.mu.Unlock()
+		return false
+	}
 	e.Failed = s.matches(cmd, e.Keys)
 	if e.Failed {
 		s.injected++
@@ -145,6 +153,24 @@ func (s *C06Srv) hook(c *server.Peer, cmd string, args ...string) bool {
 		return true
 	}
 	return false
+}
+
+func (s *C06Srv) ours(keys []string) bool {
+	if len(s.prefixes) == 0 {
+		return true
+	}
+	for _, k := range keys {
+		ok := false
+		for _, p := range s.prefixes {
+			if strings.HasPrefix(k, p) {
+				ok = true
+			}
+		}
+		if !ok {
+			return false
+		}
+	}
+	return true
 }
 
 func (s *C06Srv) matches(cmd string, keys []string) bool {
@@ -213,12 +239,23 @@ func (s *C06Srv) Injected() int {
 	return s.injected
 }
 
-// Reset empties the server and clears faults, log and counters.
-func (s *C06Srv) Reset() {
+// Reset empties the server and clears faults, log and counters; from now on
+// only commands on keys starting with one of the prefixes are logged or failed.
+func (s *C06Srv) Reset(prefixes ...string) {
 	s.M.FlushAll()
 	s.mu.Lock()
-	s.mode, s.filt, s.log, s.injected = "", "", nil, 0
+	s.mode, s.filt, s.log, s.injected, s.prefixes = "", "", nil, 0, prefixes
 	s.mu.Unlock()
+}
+
+// C06RealNow is the wall clock in nanoseconds even inside a bubble (where
+// time.Now is virtual). The redis client's socket time-outs (3 s) run on the
+// real clock: a case during which one operation took longer than 2 s of real
+// time may have seen a spurious time-out and is excluded, not judged.
+func C06RealNow() int64 {
+	var tv syscall.Timeval
+	_ = syscall.Gettimeofday(&tv)
+	return tv.Sec*1e9 + tv.Usec*1e3
 }
 
 // C06LocalWheel replaces the package's clean wheel by one created in the
